@@ -89,6 +89,19 @@ func (e *Engine) runScans(prop string) []ScanResult {
 			continue
 		}
 		res := ScanResult{Name: "scan:" + fr.Kind + ":" + fr.Target, OK: true, Where: fr.Where}
+		if fr.Kind == "acyclic" {
+			// frame {props} acyclic F only-in -: F is not reachable from itself in the static call graph of the
+			// repository (a sufficient condition for "the recursion through F terminates"; functions listed after
+			// only-in are cut points whose recursion is argued separately, e.g. structural recursion on the tree)
+			cyc := e.findCycle(fns, fr.Target, fr.Allow)
+			res.Detail = fmt.Sprintf("%s must not be reachable from itself through static calls (cut points: %s)", fr.Target, strings.Join(fr.Allow, ", "))
+			if cyc != "" {
+				res.OK = false
+				res.Detail += "; cycle: " + cyc
+			}
+			out = append(out, res)
+			continue
+		}
 		var offenders []string
 		nsites := 0
 		for _, fn := range fns {
@@ -369,4 +382,66 @@ func (e *Engine) lockUsers() map[string]bool {
 	}
 	e.lockUserSet = direct
 	return direct
+}
+
+// findCycle looks for a path target -> ... -> target over static callees and closures created by a function.
+func (e *Engine) findCycle(fns []*ssa.Function, target string, cuts []string) string {
+	byKey := map[string]*ssa.Function{}
+	for _, fn := range fns {
+		byKey[fnKey(fn)] = fn
+	}
+	cut := map[string]bool{}
+	for _, c := range cuts {
+		cut[c] = true
+	}
+	succ := func(fn *ssa.Function) []string {
+		var out []string
+		for _, b := range fn.Blocks {
+			for _, in := range b.Instrs {
+				switch x := in.(type) {
+				case ssa.CallInstruction:
+					if sf := x.Common().StaticCallee(); sf != nil {
+						out = append(out, fnKey(sf))
+					}
+				case *ssa.MakeClosure:
+					if cf, ok := x.Fn.(*ssa.Function); ok {
+						out = append(out, fnKey(cf))
+					}
+				}
+			}
+		}
+		return out
+	}
+	start := byKey[target]
+	if start == nil {
+		return "function " + target + " not found (rule is vacuous)"
+	}
+	seen := map[string]bool{}
+	var path []string
+	var dfs func(k string) bool
+	dfs = func(k string) bool {
+		fn := byKey[k]
+		if fn == nil || cut[k] {
+			return false
+		}
+		path = append(path, k)
+		for _, n := range succ(fn) {
+			if n == target {
+				path = append(path, n)
+				return true
+			}
+			if !seen[n] {
+				seen[n] = true
+				if dfs(n) {
+					return true
+				}
+			}
+		}
+		path = path[:len(path)-1]
+		return false
+	}
+	if dfs(target) {
+		return strings.Join(path, " -> ")
+	}
+	return ""
 }
